@@ -57,10 +57,13 @@ theorem play_pointer (e : Env) (s : St) (lh : Int) (b : Block) :
       by_cases h3 : parentMissing e s.pool [] b.txs = true
       · left; simp [h3]
       · simp only [h3]
-        generalize applyBlockTxs e lh b.prop _ b.txs _ = res
-        rcases res with _ | ⟨s2, r⟩
-        · left; simp
-        · cases r <;> simp
+        by_cases h4 : staleMember e s.pool [] b.txs = true
+        · left; simp [h4]
+        · simp only [h4]
+          generalize applyBlockTxs e lh b.prop _ b.txs _ = res
+          rcases res with _ | ⟨s2, r⟩
+          · left; simp
+          · cases r <;> simp
 
 theorem playForMiner_pointer (e : Env) (s : St) (lh : Int) (b : Block) :
     (playForMiner e s lh b).1 = s ∨ (playForMiner e s lh b).1.pointer = b.id := by
